@@ -47,6 +47,11 @@ const (
 	// FaultSlow: the call takes a few seconds and then succeeds (a slow disk, a lock wait): no error, the clock moves
 	// inside the request
 	FaultSlow = "slow"
+	// FaultDuplicate: StoreDeviceAuthorization answers with the documented op.ErrDuplicateUserCode (bare, or wrapped with
+	// context when the store wraps its sentinels)
+	FaultDuplicate = "duplicate-user-code"
+	// FaultCtxDone is not injected: it is the storage's answer to a call whose context has already ended
+	FaultCtxDone = "context-already-done"
 	// FaultTimeoutFast: the storage gives up on its own (statement or RPC time-out shorter than the request's
 	// deadline) and reports an error that wraps context.DeadlineExceeded while the request context is still live
 	FaultTimeoutFast = "timeout-fast"
@@ -106,6 +111,9 @@ type Client struct {
 	Skew            time.Duration
 	UserinfoAssert  bool
 	AllowedScopes   []string         // custom scopes this client may request
+	// scopes the client does not want asserted into its ID tokens / its JWT access tokens (the two
+	// RestrictAdditional...Scopes hooks; empty: identity, as most clients have it)
+	DropFromID, DropFromAT []string
 	Key             *jose.JSONWebKey // public key for private_key_jwt / jwt profile (nil: none)
 	LoginBase       string
 }
@@ -125,10 +133,24 @@ func (c *Client) IDTokenUserinfoClaimsAssertion() bool { return c.UserinfoAssert
 func (c *Client) ClockSkew() time.Duration             { return c.Skew }
 func (c *Client) IsScopeAllowed(scope string) bool     { return slices.Contains(c.AllowedScopes, scope) }
 func (c *Client) RestrictAdditionalIdTokenScopes() func([]string) []string {
-	return func(s []string) []string { return s }
+	return func(s []string) []string { return without(s, c.DropFromID) }
 }
 func (c *Client) RestrictAdditionalAccessTokenScopes() func([]string) []string {
-	return func(s []string) []string { return s }
+	return func(s []string) []string { return without(s, c.DropFromAT) }
+}
+
+// without returns the scopes that the client did not exclude (a copy; the argument is left alone).
+func without(scopes, drop []string) []string {
+	if len(drop) == 0 {
+		return scopes
+	}
+	var out []string
+	for _, sc := range scopes {
+		if !slices.Contains(drop, sc) {
+			out = append(out, sc)
+		}
+	}
+	return out
 }
 
 // GlobClient is the client as the library sees it when it opted into globs.
@@ -356,6 +378,9 @@ type Store struct {
 	wrapSeq  int
 	// Unpublished: the published key set is empty (every key withdrawn) although a signing key still exists
 	Unpublished bool
+	// WrapSentinels: documented sentinel errors (op.ErrInvalidRefreshToken, op.ErrDuplicateUserCode) are returned
+	// wrapped with context instead of bare
+	WrapSentinels bool
 	// counters of the rarely used capabilities
 	EndFromRequestCalls, ThirdPartyAccepted int
 }
@@ -417,6 +442,11 @@ func (s *Store) enter(ctx context.Context, method string, args ...any) (fault st
 	if forced != "" {
 		fault = forced
 	}
+	if fault == "" && ctx.Err() != nil {
+		// what a database driver does when it is called with a context that has already ended: it does not run the
+		// statement, it reports that context's error
+		fault = FaultCtxDone
+	}
 	if fault == FaultSlow {
 		s.mu.Lock()
 		s.Journal[idx].Fault = fault
@@ -453,6 +483,13 @@ func (s *Store) faultErr(ctx context.Context, fault string) error {
 		case <-t.C:
 		}
 		return fmt.Errorf("simstore: %w", context.DeadlineExceeded)
+	case FaultCtxDone:
+		return fmt.Errorf("simstore: %w", ctx.Err())
+	case FaultDuplicate:
+		if s.WrapSentinels {
+			return fmt.Errorf("simstore: unique constraint user_code: %w", op.ErrDuplicateUserCode)
+		}
+		return op.ErrDuplicateUserCode
 	case FaultSentinel:
 		return s.Sentinel
 	case FaultWrapped:
@@ -778,6 +815,10 @@ func (s *Store) GetRefreshTokenInfo(ctx context.Context, clientID, token string)
 	defer s.mu.Unlock()
 	r := s.liveRefresh(token)
 	if r == nil {
+		if s.WrapSentinels {
+			// with context, as storages written against errors.Is do
+			return "", "", fmt.Errorf("simstore: token %.8s...: %w", token, op.ErrInvalidRefreshToken)
+		}
 		return "", "", op.ErrInvalidRefreshToken
 	}
 	return r.Subject, r.Token, nil
